@@ -26,6 +26,8 @@ inductive Ex where
   | star (x : Ex)
   | opq (k : Nat)
   | bin (l r : Ex)
+  /-- a type conversion `T(x)` (numeric, named, pointer, string↔slice …): evaluates `x`, side effects included -/
+  | conv (x : Ex)
   deriving Repr, DecidableEq, Inhabited
 
 /-- interpretation of the primitives over a store `σ` (heap, variables, output trace …) -/
@@ -39,6 +41,8 @@ structure Env (σ : Type) where
   load : Loc → σ → Val
   store : Loc → Val → σ → σ
   op : Val → Val → Val
+  /-- value conversion -/
+  cv : Val → Val
 
 abbrev Tmp := Nat → Val
 
@@ -62,6 +66,9 @@ def evalR (E : Env σ) (t : Tmp) : Ex → σ → Val × σ
     let r1 := evalR E t l s
     let r2 := evalR E t r r1.2
     (E.op r1.1 r2.1, r2.2)
+  | .conv x, s =>
+    let r1 := evalR E t x s
+    (E.cv r1.1, r1.2)
 
 /-- location denoted by an addressable expression (operands of index expressions and pointer indirections are
     evaluated, Go spec "Assignment statements", phase 1) -/
@@ -159,6 +166,7 @@ def noTmp : Ex → Bool
   | .sel x _ => noTmp x
   | .star x => noTmp x
   | .bin l r => noTmp l && noTmp r
+  | .conv x => noTmp x
   | _ => true
 
 /-- opaque sub-expressions in evaluation (= source) order -/
@@ -168,7 +176,55 @@ def opqs : Ex → List Nat
   | .sel x _ => opqs x
   | .star x => opqs x
   | .bin l r => opqs l ++ opqs r
+  | .conv x => opqs x
   | _ => []
+
+/-! ### which operand forms `viaTmpVars` treats how (assign.go:46-82, after `astutil.RemoveParens`)
+
+  * KEPT IN PLACE, i.e. treated as pure and evaluated again for the read and for the write: `*ast.Ident`, `*ast.BasicLit`
+    (and the temporaries, which are identifiers);
+  * LOOKED THROUGH (the node is rebuilt, its operands are treated recursively): `*ast.IndexExpr` (X, Index),
+    `*ast.SelectorExpr` with a selection (X), `*ast.StarExpr` (X); parentheses are removed first;
+  * HOISTED into a temporary — `default:` — EVERYTHING ELSE: calls, type conversions, unary and binary expressions,
+    type assertions, composite literals, function literals called in place, slice expressions, qualified identifiers
+    … (`opq`, `bin`, `conv` here).
+  `desugar_once` holds exactly because the kept-in-place class contains nothing that can have an effect. -/
+
+inductive OperandClass where
+  | keptInPlace | lookedThrough | hoisted
+  deriving Repr, DecidableEq
+
+def operandClass : Ex → OperandClass
+  | .ident _ => .keptInPlace
+  | .lit _ => .keptInPlace
+  | .tmp _ => .keptInPlace
+  | .index _ _ => .lookedThrough
+  | .sel _ _ => .lookedThrough
+  | .star _ => .lookedThrough
+  | _ => .hoisted
+
+/-- A BROKEN variant (the seeded change `C01-conversion-operand-not-hoisted`): "a conversion has no side effects", so a
+    conversion operand is kept in place — its argument is never inspected. -/
+def viaTmpConvPure : Ex → Nat → Nat → Ex × Nat × List TmpDef
+  | .index x i, _, n =>
+    let rx := viaTmpConvPure x 0 n
+    let ri := viaTmpConvPure i 1 rx.2.1
+    (.index rx.1 ri.1, ri.2.1, rx.2.2 ++ ri.2.2)
+  | .sel x f, _, n =>
+    let rx := viaTmpConvPure x 2 n
+    (.sel rx.1 f, rx.2.1, rx.2.2)
+  | .star x, _, n =>
+    let rx := viaTmpConvPure x 3 n
+    (.star rx.1, rx.2.1, rx.2.2)
+  | .ident x, _, n => (.ident x, n, [])
+  | .lit k, _, n => (.lit k, n, [])
+  | .tmp j, _, n => (.tmp j, n, [])
+  | .conv x, _, n => (.conv x, n, [])
+  | e, name, n => (.tmp n, n + 1, [⟨n, name, e⟩])
+
+def desugarConvPure (x y : Ex) : Block :=
+  let r := viaTmpConvPure x 4 0
+  { tmps := r.2.2, lhs := r.1, rhs := .bin r.1 y }
 
 /-! ### tuple assignment `l₁, …, lₙ = r₁, …, rₙ` (statements.go:399-414) -/
 
@@ -216,23 +272,49 @@ def isIdent : Ex → Bool
 
 /-! ### driver: shape of the desugaring of the lvalue forms the generated programs use -/
 
-def lvForm : Nat → Ex
-  | 0 => .index (.ident 0) (.opq 1)                 -- arr[ix()]
-  | 1 => .star (.opq 1)                             -- *pg()
-  | 2 => .index (.ident 1) (.opq 1)                 -- mp[ix()]
-  | 3 => .index (.sel (.ident 2) 0) (.opq 1)        -- sv.x[ix()]
-  | 4 => .index (.ident 3) (.opq 1)                 -- sl[ix()]
-  | 5 => .index (.sel (.opq 0) 0) (.opq 1)          -- ps().x[ix()]
-  | 7 => .index (.opq 0) (.opq 1)                   -- mk()[ix()]
-  | 8 => .sel (.star (.opq 0)) 0                    -- (*pp()).f
+/-- the side-effecting index operand `ix(id, x)` under wrapper `w` (what checks/c01.py renders):
+    0 `ix()` · 1 `int(uint8(ix()))` · 2 `int(myInt(ix()))` · 3 `(ix())` · 4 `-(-ix())` · 5 `ix()&3` · 6 `idxs[uint8(ix())]` ·
+    7 `any(ix()).(int)` · 8 `func() int { return ix() }()` · 9 `[1]int{ix()}[0]` · 10 `mkP(ix()).a` · 11 `*pint(ix())` ·
+    12 `int([]byte(sb(ix()))[0])` · 13 `[]byte(sb(ix()))[0]` -/
+def idxOperand : Nat → Ex
+  | 1 => .conv (.conv (.opq 1))
+  | 2 => .conv (.conv (.opq 1))
+  | 5 => .bin (.opq 1) (.lit 3)
+  | 6 => .index (.ident 5) (.conv (.opq 1))
+  | 9 => .index (.opq 1) (.lit 0)
+  | 10 => .sel (.opq 1) 0
+  | 11 => .star (.opq 1)
+  | 12 => .conv (.index (.conv (.opq 1)) (.lit 0))
+  | 13 => .index (.conv (.opq 1)) (.lit 0)
+  | _ => .opq 1      -- call, parenthesised call, unary, type assertion, literal called in place: `default:`
+
+/-- pointer / struct base `pg(id, x)` / `ps(id)` under wrapper `w`: 0 plain · 1 parenthesised · 2 pointer conversion
+    `(*T)(p())` · 3 conversion through a named pointer type · 4 `(*p())` (struct base only) -/
+def baseOperand : Nat → Ex
+  | 2 => .conv (.opq 0)
+  | 3 => .conv (.conv (.opq 0))
+  | 4 => .star (.opq 0)
+  | _ => .opq 0
+
+def lvForm (lv wi wb : Nat) : Ex :=
+  match lv with
+  | 0 => .index (.ident 0) (idxOperand wi)                   -- arr[…]
+  | 1 => .star (baseOperand wb)                              -- *pg()
+  | 2 => .index (.ident 1) (idxOperand wi)                   -- mp[…]
+  | 3 => .index (.sel (.ident 2) 0) (idxOperand wi)          -- sv.x[…]
+  | 4 => .index (.ident 3) (idxOperand wi)                   -- sl[…]
+  | 5 => .index (.sel (baseOperand wb) 0) (idxOperand wi)    -- ps().x[…]
   | _ => .ident 4
 
-def describe (lv op : String) : String :=
-  match lv.toNat? with
-  | none => "bad-op"
-  | some n =>
-    let b := if op == "incdec" then desugarIncDec (lvForm n) else desugar (lvForm n) (.opq 9)
+def describe (lv wi wb op : String) : String :=
+  match lv.toNat?, wi.toNat?, wb.toNat? with
+  | some n, some wi, some wb =>
+    let x := lvForm n wi wb
+    let b := if op == "incdec" then desugarIncDec x else desugar x (.opq 9)
     let names := b.tmps.map fun d => tmpName d.name
-    (if names.isEmpty then "-" else ",".intercalate names) ++ s!" once={decide (opqs b.rhs = (if op == "incdec" then [] else [9]))}"
+    -- every opaque operand of the lvalue is hoisted exactly once, and the rewritten lvalue mentions none
+    let hoistedOnce := decide ((b.tmps.map fun d => opqs d.e).flatten = opqs x) && decide (opqs b.lhs = [])
+    (if names.isEmpty then "-" else ",".intercalate names) ++ s!" once={hoistedOnce}"
+  | _, _, _ => "bad-op"
 
 end GV.Desugar
